@@ -72,6 +72,7 @@ func pHasRelation(m *openfgav1.AuthorizationModel, typ, rel string) bool {
 func (g *pGraph) rewrite(m *openfgav1.AuthorizationModel, td *openfgav1.TypeDefinition, rel string, u *openfgav1.Userset, parent *pNode) {
 	switch {
 	case u.GetThis() != nil:
+		seenSrc := map[*pNode]bool{}
 		for _, r := range td.GetMetadata().GetRelations()[rel].GetDirectlyRelatedUserTypes() {
 			var src *pNode
 			switch {
@@ -82,8 +83,10 @@ func (g *pGraph) rewrite(m *openfgav1.AuthorizationModel, td *openfgav1.TypeDefi
 			default:
 				src = g.node(r.GetType(), SpecificType)
 			}
-			// one direct line per source, whatever the number of conditions
-			if !g.hasLine(parent, src, DirectEdge, "") {
+			// one direct line per source of THIS direct assignment, whatever the number of conditions (a direct
+			// assignment written twice under one operator is drawn twice, like any repeated operand)
+			if !seenSrc[src] {
+				seenSrc[src] = true
 				parent.in = append(parent.in, &pLine{from: src, kind: DirectEdge})
 			}
 		}
